@@ -553,10 +553,13 @@ func liveAsof(r *rand.Rand, tot map[string]int) {
 		return
 	}
 	if len(pendingAsof) < 3 {
-		tau := now + int64(5+r.Intn(40))
+		tau := now + int64(15+r.Intn(40))
 		rt := db.NewReadTran()
 		rt.Asof(tau) // future: shows the current state; what matters is that it is not remembered
 		pendingAsof = append(pendingAsof, tau)
+		// make sure at least one more state is persisted before that time
+		tranOp(r)
+		db.Persist()
 	}
 }
 
@@ -615,6 +618,12 @@ func scenario(r *rand.Rand, sn int, mode string, ntrials int, tot map[string]int
 			steps = 120 + r.Intn(60) // many state records: some straddle a page boundary
 		}
 		history(r, steps)
+		for asofMode && len(pendingAsof) > 0 {
+			if d := pendingAsof[0] + 4 - time.Now().UnixMilli(); d > 0 {
+				time.Sleep(time.Duration(d) * time.Millisecond)
+			}
+			liveAsof(r, nil)
+		}
 		if round == rounds-1 && (mode == "crash" || mode == "all") {
 			// image of the file as a process death would leave it: everything allocated so far,
 			// no final persist, no shutdown marker. Taken under a forced persist so that the
